@@ -1029,7 +1029,144 @@ func genMemoCrypto(r *vh.Rand, order string) Case {
 	return Case{Op: "memo", Kind: "memo-crypto-" + order, TxType: -1, Steps: steps}
 }
 
+// ---- lock histories --------------------------------------------------------------------------
+// step 1: the honest transaction is validated and its inputs are then locked in the store
+// (all of them for the payload hash / only some / all for ANOTHER hash, later validated with
+// fork); step 2..n: the SAME payload (the payload hash does not cover signatures) with forged
+// authorizations, each followed by the honest one again.  variant: all | some | other.
+func genLockHistory(r *vh.Rand, agg bool, variant string) Case {
+	p := &pool{r: r}
+	nIn := inputCount(r)
+	if variant == "some" && nIn < 2 {
+		nIn = 2
+	}
+	var ins []InputSpec
+	var ts []int
+	total := 0
+	for i := 0; i < nIn; i++ {
+		n := r.Range(1, 5)
+		t := r.Range(1, n)
+		in := InputSpec{Type: 0, Script: scriptHex(t)}
+		for j := 0; j < n; j++ {
+			in.Keys = append(in.Keys, p.fresh())
+		}
+		honestSigs(r, &in, t)
+		ins = append(ins, in)
+		ts = append(ts, t)
+		total += n
+	}
+	var signers []int
+	off := 0
+	for i := range ins {
+		for _, s := range ins[i].Sigs {
+			signers = append(signers, off+s.Idx)
+		}
+		off += len(ins[i].Keys)
+	}
+	sort.Ints(signers)
+	base := Case{Op: "inputs", Kind: "lock-genuine", NMaps: nIn, TxType: -1, Extra: hex.EncodeToString(r.Bytes(r.Range(1, 12))),
+		Inputs: ins, Privs: p.privs}
+	if agg {
+		base.NMaps = -1
+		base.Agg = &AggSpec{Signers: signers, Actual: signers, Seed: hex.EncodeToString(r.Bytes(32))}
+	}
+	fork := variant == "other"
+	first := cloneCase(base)
+	first.Kind = "lock-first"
+	first.LockAfter = variant
+	if variant == "some" {
+		first.LockSel = subset(r, nIn, r.Range(1, nIn-1))
+	}
+	later := cloneCase(base)
+	later.Fork = fork
+	var forged []Case
+	add := func(kind string, f func(c *Case)) {
+		t := cloneCase(later)
+		t.Kind = kind
+		f(&t)
+		forged = append(forged, t)
+	}
+	if !agg {
+		vi := r.Intn(nIn)
+		add("lock-sig-flipped", func(c *Case) {
+			q := r.Intn(len(c.Inputs[vi].Sigs))
+			c.Inputs[vi].Sigs[q].Tamper = 1 + r.Intn(64)
+			c.Inputs[vi].Sigs[q].Xor = 1 << uint(r.Intn(8))
+		})
+		add("lock-sigs-random", func(c *Case) {
+			for i := range c.Inputs {
+				for q := range c.Inputs[i].Sigs {
+					c.Inputs[i].Sigs[q].Raw = hex.EncodeToString(r.Bytes(64))
+				}
+			}
+		})
+		add("lock-sigs-of-fresh-keys", func(c *Case) {
+			for i := range c.Inputs {
+				for q := range c.Inputs[i].Sigs {
+					k := newPriv(r)
+					c.Privs = append(c.Privs, hex.EncodeToString(k[:]))
+					c.Inputs[i].Sigs[q].Signer = len(c.Privs) - 1
+				}
+			}
+		})
+		add("lock-too-few-maps", func(c *Case) { c.NMaps = []int{nIn - 1, 0}[r.Intn(2)]; c.TxType = 0 })
+		add("lock-too-few-sigs", func(c *Case) { c.Inputs[vi].Sigs = c.Inputs[vi].Sigs[:len(c.Inputs[vi].Sigs)-1] })
+		add("lock-empty-maps", func(c *Case) {
+			for i := range c.Inputs {
+				c.Inputs[i].Sigs = nil
+			}
+		})
+		add("lock-sigs-other-payload", func(c *Case) {
+			for i := range c.Inputs {
+				for q := range c.Inputs[i].Sigs {
+					c.Inputs[i].Sigs[q].Other = true
+				}
+			}
+		})
+		add("lock-random-aggregate", func(c *Case) {
+			for i := range c.Inputs {
+				c.Inputs[i].Sigs = nil
+			}
+			c.NMaps = -1
+			c.Agg = &AggSpec{Signers: append([]int{}, signers...), Actual: nil, Seed: hex.EncodeToString(r.Bytes(32))}
+		})
+	} else {
+		add("lock-random-aggregate", func(c *Case) { c.Agg.Actual = nil })
+		add("lock-aggregate-flipped", func(c *Case) { c.Agg.Tamper = 1 + r.Intn(64); c.Agg.Xor = 1 << uint(r.Intn(8)) })
+		add("lock-aggregate-other-payload", func(c *Case) { c.Agg.Other = true })
+		add("lock-aggregate-empty-signers", func(c *Case) { c.Agg.Signers = nil; c.Agg.Actual = nil })
+		add("lock-maps-instead-random", func(c *Case) {
+			c.Agg = nil
+			c.NMaps = nIn
+			for i := range c.Inputs {
+				for q := range c.Inputs[i].Sigs {
+					c.Inputs[i].Sigs[q].Raw = hex.EncodeToString(r.Bytes(64))
+				}
+			}
+		})
+	}
+	steps := []Case{first}
+	if variant == "other" { // locked for another hash: refused without fork, whatever the signatures
+		nf := cloneCase(base)
+		nf.Kind = "lock-other-nofork"
+		steps = append(steps, nf)
+	}
+	again := cloneCase(later)
+	again.Kind = "lock-genuine-again"
+	for _, f := range forged {
+		steps = append(steps, f, again)
+	}
+	kind := "lock-history-" + variant
+	if agg {
+		kind = "lock-history-agg-" + variant
+	}
+	return Case{Op: "memo", Kind: kind, TxType: -1, Steps: steps}
+}
+
 func genMemo(r *vh.Rand) Case {
+	if r.Chance(2, 5) {
+		return genLockHistory(r, r.Chance(1, 3), []string{"all", "all", "some", "other"}[r.Intn(4)])
+	}
 	order := "genuine-first"
 	if r.Chance(1, 4) {
 		order = "tamper-first"
@@ -1054,7 +1191,7 @@ func gen(c *vh.Ctx) Case {
 	}
 	x := r.Intn(100)
 	switch {
-	case x < 36:
+	case x < 34:
 		return genMap(r, tampers)
 	case x < 39:
 		return genMemo(r)
@@ -1213,6 +1350,27 @@ func corpus() []Case {
 	out = append(out, genMemoInputs(r, "tamper-first", true, "", 6))
 	out = append(out, genMemoCrypto(r, "genuine-first"))
 	out = append(out, genMemoCrypto(r, "tamper-first"))
+	// lock histories: validated, inputs locked in the store, then the same payload forged
+	out = append(out, genLockHistory(r, false, "all"))
+	out = append(out, genLockHistory(r, true, "all"))
+	out = append(out, genLockHistory(r, false, "some"))
+	out = append(out, genLockHistory(r, false, "other"))
+	// preset lock states outside a history
+	mk("locked-this-hash-forged", []int{2}, []int{2}, func(p *pool, ins []InputSpec, cs *Case) {
+		ins[0].Sigs = []SigSpec{{Idx: 0, Signer: ins[0].Keys[0]}, {Idx: 1, Signer: ins[0].Keys[0]}}
+		cs.Locks = []int{1}
+	})
+	mk("locked-this-hash-honest", []int{2}, []int{2}, func(p *pool, ins []InputSpec, cs *Case) { first(&ins[0], 2); cs.Locks = []int{1} })
+	mk("locked-other-hash-honest", []int{2}, []int{2}, func(p *pool, ins []InputSpec, cs *Case) { first(&ins[0], 2); cs.Locks = []int{2} })
+	mk("locked-other-hash-fork-honest", []int{2}, []int{2}, func(p *pool, ins []InputSpec, cs *Case) {
+		first(&ins[0], 2)
+		cs.Locks = []int{2}
+		cs.Fork = true
+	})
+	mk("locked-other-hash-fork-no-sigs", []int{2, 1}, []int{2, 1}, func(p *pool, ins []InputSpec, cs *Case) {
+		cs.Locks = []int{2, 1}
+		cs.Fork = true
+	})
 	return out
 }
 
